@@ -120,6 +120,14 @@ def gen_cases(ctx):
             rules.append(rng.choice(['+', '+x', '* a', '-  ', '+ ', 'x', '- a\r', '+ \\', '+ a\\']))
         paths = [gen_path(rng) for _ in range(4)] + [rng.choice(['ю', 'a/ю', '', '/', 'a/', '/a', 'a//b', '{', ',', 'a,b', ']'])]
         cases.append({'spec': '\n'.join(rules), 'paths': paths})
+    # character classes with members outside ASCII: globset writes them into a byte-mode regex as the bytes of their
+    # UTF-8 encodings (`byteRanges` in the model)
+    cls_alpha = ['ю', 'я', 'a', 'b', '!', '^', '-', ']', 'ѐ', '߿', '€', '*', '?']
+    cls_paths = ['ю', 'я', 'a', 'b', 'юя', 'яю', 'aю', 'юa', 'ѐ', '€', '߿', '!', '^', '-', ']', 'ю/я']
+    for _ in range(300 if ctx.tier == 'quick' else 6000):
+        body = ''.join(rng.choice(cls_alpha) for _ in range(rng.randint(1, 5)))
+        spec = '%s %s[%s]%s' % (rng.choice('+-'), rng.choice(['', 'a', '*', '?']), body, rng.choice(['', '*', 'a', '?']))
+        cases.append({'spec': spec, 'paths': rng.sample(cls_paths, 6)})
     if ctx.tier == 'thorough':
         # exhaustive: every glob of <= 3 atoms from a small atom set, against all paths of depth <= 3 over {a,b}
         atoms = ['a', 'b', '*', '?', '/', '**', '{a,b}', '[!a]']
